@@ -273,7 +273,8 @@ def rule_R4(chk, repo):
            norm(rets[0].value) if rets else '', key=f'{rid}|norm')
     n += 1
     # compute_right_operator_blocks
-    fi = repo.func('operation.compute_right_operator_blocks')
+    from ..canon import canonical, ARITH_VALUE_ROLES
+    fi = canonical(repo.func('operation.compute_right_operator_blocks'), ARITH_VALUE_ROLES)
     calls = [c for c in ast.walk(fi.node) if isinstance(c, ast.Call) and
              norm(c.func) == 'contraction_operator_step_right']
     if len(calls) != 1:
